@@ -13,10 +13,12 @@ CONSTANTS
   MaxTx = 1
   SupplyCap = 8
   DataVals = {7}
+  ConsArgs <- ConsSmallFN
+  ConArgs <- ConSmallFN
   InitLedgers <- InitFN
 VIEW View
 INVARIANTS TypeOK SupplyMatches InTxSupply NonNegative CommittedIsPre InTxConservation NoEmptyWorktopBucket
   LocksMatchProofs ProofBacked UnlockedIsLiquid NoLocksOutsideTx DivisibilityState LiveSubsetEver HeldIdsAreLive MintedOnce
-PROPERTIES Conservation SupplyDelta RevertExact SuccessClean TakeExact TakeShortFails TakeEnoughSucceeds AssertExact
+PROPERTIES Conservation SupplyDelta RevertExact SuccessClean TakeExact TakeShortFails TakeEnoughSucceeds AssertExact ResAssertExact
   UseAfterConsume TotalUnchangedByLocks OnlyLiquidLeaves DivisibilityArgs EverMonotone MintFresh DataChangeRestricted UpdateOnlyLive
 CHECK_DEADLOCK FALSE
